@@ -32,6 +32,11 @@ T={
  'C11-b':('C11','EventLoop::next_request (v4): pending.pop_front() before the throttle sleep (skipped when the throttle is zero)','non-zero pending_throttle, requests carried over a failure, session resumed, and another select! arm (a broker packet, the keep-alive timer) fires during the throttle sleep: the popped request is dropped and never retransmitted'),
  'C16-b':('C16','handle_last_will: last_wills.get(..).cloned() instead of remove(..)','connection 1 of a client id registers a will and ends without DISCONNECT (will fires); connection 2 of the same id registers no will and also ends without DISCONNECT: the stale will is published again'),
  'C18-b':('C18','v5 EventLoop::poll: connection_timeout wraps only network_connect, not the CONNECT/CONNACK exchange','MQTT 5 client, transport connects, the broker never answers the CONNECT (or answers late): poll() stays pending for ever instead of reporting a timeout'),
+ 'C03-b':('C03','Unsubscribe arm of handle_device_payload: shared_subscriptions.get_mut(filter).unwrap() instead of if let Some','a persistent session that subscribed a $share filter ends while it was the only member (group discarded), is resumed, and sends UNSUBSCRIBE for that filter: the router thread panics'),
+ 'C04-b':('C04','rumqttd v5 SUBSCRIBE codec: NO_LOCAL and RETAIN_AS_PUBLISHED bit constants swapped (used by its encoder and its decoder)','an MQTT 5 SUBSCRIBE with a filter whose No Local and Retain As Published flags differ crosses the client/broker boundary: the broker decodes the other flag; invisible inside the broker codec'),
+ 'C05-b':('C05','rumqttd v5 CONNECT will properties: delay interval read with Buf::get_u32 behind a check of the declared property length','a complete, in-limit MQTT 5 CONNECT with the will flag whose frame ends 0-3 bytes after the 0x18 identifier of the will delay interval: decoder panics'),
+ 'C09-c':('C09','Router::consume: the InflightFull arm returns early and re-tracks only the request that hit the window','one client with two QoS>0 subscriptions that both have a backlog when the window of 100 fills in one consume() pass: the other request is dropped and never served again'),
+ 'C12-b':('C12','DataLog::matches: pre-filter dropping filters with more separators than the topic before calling matches()','a filter ending in /# that is one level deeper than the topic (a/b/# vs a/b) is already subscribed when the topic is published for the first time: the per-topic filter cache misses it and the publish is routed to no log'),
  'C13-b':('C13','CommitLog::readv: next segment looked up as segments[cursor.0] instead of segments[idx + 1]','retention has discarded at least one segment (head > 0) and one readv starts in a sealed segment and asks for more entries than remain in it: out-of-bounds index / wrong segment'),
  'C14-b':('C14','Scheduler::remove: self.readyqueue.remove(id) added (VecDeque::remove takes a position)','connection k is closed by the router while the ready queue holds more than k ids and index k belongs to another connection: that connection is dequeued while its tracker says Ready and is never scheduled again'),
  'C15-b':('C15','DataLog::insert_to_retained_publishes: entry(topic).or_insert_with(..) instead of insert','a second retained, non-empty publish on a topic that already has a retained message (no clearing in between): new subscribers get the oldest retained message'),
